@@ -240,7 +240,7 @@ theorem expandArgs_headObj (h : Host σ Obj) (locals globals : Env Obj) (es : Li
 namespace Witness
 
 def host : HostDesc :=
-  { sents := [{ id := 1, attrs := [("pub", .int 5), ("_priv", .str "SECRET")], meths := [] }] }
+  { sents := [{ id := 1, attrs := [("pub", .int 5), ("_priv", .str "SECRET"), ("_w", .int 6)], meths := [] }] }
 def locals : Env CV := [("x", .sent 1)]
 def globals : Env CV := defaultGlobals.map fun n => (n, CV.builtin n)
 def opNamed (n : String) : Tok := match lookupOp n with | some s => .op s | none => .other n
@@ -280,6 +280,19 @@ theorem format_refused_witness : let r := eval (concreteHost host) locals global
     `no_underscore_getattr` alone does not give C19 and the host contract is needed. -/
 theorem prefix_format_bypass_witness : let r := eval (concreteHostWith false host) locals globals tokFormat []
     (isStr r.1 "SECRET" && readNames r == [] && r.2.hs == [(1, "_priv")]) = true := by decide +kernel
+
+/-- RPN of `'{0:>{1._w}}'.format('ab', x)`: the underscore attribute sits in a field NESTED in the format spec. -/
+def tokNested : List Tok :=
+  [.str "{0:>{1._w}}", .ident "format" 19, opNamed "MEMBER_ACCESS", .str "ab", .ident "x" 27, .fsc 2 .tuple,
+   opNamed "FUNCTION_CALL"]
+
+/-- `string.Formatter` recurses into the format spec, so `_SafeFormatter.get_field` also vets nested fields. -/
+theorem nested_spec_refused_witness : let r := eval (concreteHost host) locals globals tokNested []
+    (isExc r.1 "ParseError" && readNames r == [] && r.2.hs == []) = true := by decide +kernel
+
+/-- Without the refusal the nested field is traversed: `_w = 6` becomes the width. -/
+theorem prefix_nested_spec_witness : let r := eval (concreteHostWith false host) locals globals tokNested []
+    (isStr r.1 "    ab" && r.2.hs == [(1, "_w")]) = true := by decide +kernel
 
 end Witness
 
@@ -349,6 +362,52 @@ theorem walkPath_pub (d : HostDesc) (path : List FStep) (hpath : path.any stepIs
       · exact ih hpath.2 _ st hp
       · exact hp
 
+theorem resolveRef_pub (d : HostDesc) (args : List CV) (mapping : Option CV) (r : FRef)
+    (auto : Option Nat) (st : CState) (hp : Pub st) :
+    Pub (resolveRef true d args mapping r auto st).2 := by
+  unfold resolveRef
+  simp only [Bool.true_and]
+  split
+  · exact hp
+  · split
+    · exact hp
+    · rename_i hpriv
+      simp only [Bool.not_eq_true] at hpriv
+      split
+      · exact hp
+      · rename_i v _
+        have h1 := walkPath_pub d r.path hpriv v st hp
+        split
+        · rename_i heq; rw [heq] at h1; exact h1
+        · rename_i o st' heq
+          rw [heq] at h1
+          split
+          · exact h1
+          · split <;> exact h1
+
+theorem renderSpec_pub (d : HostDesc) (args : List CV) (mapping : Option CV) (ps : List SPiece)
+    (auto : Option Nat) (st : CState) (hp : Pub st) :
+    Pub (renderSpec true d args mapping ps auto st).2 := by
+  induction ps generalizing auto st with
+  | nil => unfold renderSpec; exact hp
+  | cons p rest ih =>
+    cases p with
+    | lit s =>
+      unfold renderSpec
+      have h1 := ih auto st hp
+      split <;> (rename_i heq; rw [heq] at h1; exact h1)
+    | ref r =>
+      unfold renderSpec
+      have h1 := resolveRef_pub d args mapping r auto st hp
+      split
+      · rename_i heq; rw [heq] at h1; exact h1
+      · rename_i o auto' st' heq
+        rw [heq] at h1
+        split
+        · exact h1
+        · have h2 := ih auto' st' h1
+          split <;> (rename_i heq2; rw [heq2] at h2; exact h2)
+
 theorem renderPieces_pub (d : HostDesc) (args : List CV) (mapping : Option CV) (ps : List FPiece)
     (auto : Option Nat) (st : CState) (hp : Pub st) :
     Pub (renderPieces true d args mapping ps auto st).2 := by
@@ -362,26 +421,20 @@ theorem renderPieces_pub (d : HostDesc) (args : List CV) (mapping : Option CV) (
       split <;> (rename_i heq; rw [heq] at h1; exact h1)
     | field f =>
       unfold renderPieces
-      simp only [Bool.true_and]
+      have h1 := resolveRef_pub d args mapping f.ref auto st hp
       split
-      · exact hp
-      · rename_i key auto' hnum
+      · rename_i heq; rw [heq] at h1; exact h1
+      · rename_i o auto1 st1 heq
+        rw [heq] at h1
+        have h2 := renderSpec_pub d args mapping f.spec auto1 st1 h1
         split
-        · exact hp
-        · rename_i hpriv
-          simp only [Bool.not_eq_true] at hpriv
+        · rename_i heq2; rw [heq2] at h2; exact h2
+        · rename_i spec auto2 st2 heq2
+          rw [heq2] at h2
           split
-          · exact hp
-          · rename_i v _
-            have h1 := walkPath_pub d f.path hpriv v st hp
-            split
-            · rename_i heq; rw [heq] at h1; exact h1
-            · rename_i o st' heq
-              rw [heq] at h1
-              split
-              · exact h1
-              · have h2 := ih auto' st' h1
-                split <;> (rename_i heq2; rw [heq2] at h2; exact h2)
+          · exact h2
+          · have h3 := ih auto2 st2 h2
+            split <;> (rename_i heq3; rw [heq3] at h3; exact h3)
 
 theorem doFormat_pub (d : HostDesc) (fmt : String) (args : List CV) (mapping : Option CV) (st : CState)
     (hp : Pub st) : Pub (doFormat true d fmt args mapping st).2 := by
